@@ -406,4 +406,1097 @@ theorem history_db_independent_of_mem (h : List (Op × Option (Nat × FaultKind)
     rw [(outcome_depends_only_on_file db mem₁ mem₂ c.1 c.2).1]
     exact ih _ _ _
 
+
+/-! ### the structure of `isotherm_to_db` -/
+
+/-- the property-row loop of `isotherm_to_db` -/
+def isoPropLoop (id : String) (props : List (String × PVal)) : Sql PUnit :=
+  forIn props PUnit.unit fun x _ =>
+    match x with
+    | (t, v) => do
+      writeStmt (insIsoProp id t v)
+      pure (ForInStep.yield PUnit.unit)
+
+/-- the data-row loop of `isotherm_to_db` -/
+def isoDataLoop (id : String) (data : List (String × String × String)) : Sql PUnit :=
+  forIn data PUnit.unit fun x _ =>
+    match x with
+    | (t, dt, d) => do
+      writeStmt (insIsoData id t dt d)
+      pure (ForInStep.yield PUnit.unit)
+
+/-- the tail of `isotherm_to_db`: the isotherm row, its property rows, its data rows -/
+def isoTail (i : IsoIn) : Sql Unit := do
+  writeStmt (insIso i.id i.isoType i.material i.adsorbate i.temperature)
+  isoPropLoop i.id i.props
+  isoDataLoop i.id i.data
+  pure ()
+
+/-- the adsorbate auto-insertion step followed by the tail -/
+def isoAdsPart (i : IsoIn) (autoAds : Bool) : Sql Unit :=
+  if autoAds then do
+    let known ← readStmt fun db => db.ads.contains (i.adsorbate.getD "")
+    if !known then do
+      adsToDb i.adsorbate i.adsProps true false
+      isoTail i
+    else isoTail i
+  else isoTail i
+
+theorem isoToDb_eq (i : IsoIn) (autoMat autoAds : Bool) :
+    isoToDb i autoMat autoAds =
+      if autoMat then do
+        let known ← readStmt fun db => db.mats.contains (i.material.getD "")
+        if !known then do
+          matToDb i.material i.matProps true false
+          isoAdsPart i autoAds
+        else isoAdsPart i autoAds
+      else isoAdsPart i autoAds := by
+  rfl
+
+
+/-- only `IntegrityError` may escape -/
+abbrev isInt : SqlErr → Prop := fun e => e = .integrity
+
+/-- frame of `adsorbate_to_db`: materials, isotherm types and isotherms are untouched -/
+def PA (M : List String) (T : List (String × String)) (I : List (String × String × String × String × String)) (d : Db) : Prop :=
+  d.mats = M ∧ d.isoTypes = T ∧ d.isos = I
+
+/-- frame of `material_to_db`: adsorbates, isotherm types and isotherms are untouched -/
+def PM (A : List String) (T : List (String × String)) (I : List (String × String × String × String × String)) (d : Db) : Prop :=
+  d.ads = A ∧ d.isoTypes = T ∧ d.isos = I
+
+section frame
+variable {M A : List String} {T : List (String × String)} {I : List (String × String × String × String × String)}
+
+lemma pa_insAds (name : Option String) (d : Db) (h : PA M T I d) : okP (PA M T I) isInt (insAds name d) := by
+  unfold insAds insName
+  cases name with
+  | none => rfl
+  | some n => simp only; split_ifs; · rfl
+              · exact h
+
+lemma pa_filter (nm : String) (d : Db) (h : PA M T I d) :
+    okP (PA M T I) isInt (Except.ok { d with adsProps := d.adsProps.filter (·.1 != nm) } : Except SqlErr Db) := h
+
+lemma pa_insType (t : Option String) (u de : String) (d : Db) (h : PA M T I d) :
+    okP (PA M T I) isInt (insType3 (·.adsTypes) (fun d l => { d with adsTypes := l }) t u de d) := by
+  unfold insType3
+  cases t with
+  | none => rfl
+  | some n => simp only; split_ifs; · rfl
+              · exact h
+
+lemma pa_insProp (a t : String) (v : Option String) (d : Db) (h : PA M T I d) : okP (PA M T I) isInt (insAdsProp a t v d) := by
+  unfold insAdsProp
+  cases v with
+  | none => rfl
+  | some n => simp only; split_ifs; · exact h
+              · rfl
+
+lemma pm_insMat (name : Option String) (d : Db) (h : PM A T I d) : okP (PM A T I) isInt (insMat name d) := by
+  unfold insMat insName
+  cases name with
+  | none => rfl
+  | some n => simp only; split_ifs; · rfl
+              · exact h
+
+lemma pm_filter (nm : String) (d : Db) (h : PM A T I d) :
+    okP (PM A T I) isInt (Except.ok { d with matProps := d.matProps.filter (·.1 != nm) } : Except SqlErr Db) := h
+
+lemma pm_insType (t : Option String) (u de : String) (d : Db) (h : PM A T I d) :
+    okP (PM A T I) isInt (insType3 (·.matTypes) (fun d l => { d with matTypes := l }) t u de d) := by
+  unfold insType3
+  cases t with
+  | none => rfl
+  | some n => simp only; split_ifs; · rfl
+              · exact h
+
+lemma pm_insProp (a t : String) (v : Option String) (d : Db) (h : PM A T I d) : okP (PM A T I) isInt (insMatProp a t v d) := by
+  unfold insMatProp
+  cases v with
+  | none => rfl
+  | some n => simp only; split_ifs; · exact h
+              · rfl
+
+lemma paRel_adsToDb (name props ai ow) : Inv isInt (PA M T I) (adsToDb name props ai ow) := by
+  unfold adsToDb
+  sql_inv [first | exact pa_insAds _ | exact pa_filter _ | exact pa_insType _ _ _ | exact pa_insProp _ _ _] [rfl]
+
+lemma pmRel_matToDb (name props ai ow) : Inv isInt (PM A T I) (matToDb name props ai ow) := by
+  unfold matToDb
+  sql_inv [first | exact pm_insMat _ | exact pm_filter _ | exact pm_insType _ _ _ | exact pm_insProp _ _ _] [rfl]
+
+end frame
+
+
+/-! ### refusals of `isotherm_to_db` -/
+
+lemma isoTail_fails (i : IsoIn) (db : Db) (mem : Mem) (n : Nat)
+    (h : insIso i.id i.isoType i.material i.adsorbate i.temperature db = .error .integrity) :
+    (exec (isoTail i) ⟨db, mem, n, none⟩).1 = .error .integrity := by
+  unfold isoTail
+  rw [exec_bind, exec_writeStmt_error h]
+
+lemma isoAdsPart_fails (i : IsoIn) (aa : Bool) (db : Db) (mem : Mem) (n : Nat)
+    (h : ∀ d, (aa = true ∨ d.ads = db.ads) → d.mats = db.mats → d.isoTypes = db.isoTypes → d.isos = db.isos →
+      insIso i.id i.isoType i.material i.adsorbate i.temperature d = .error .integrity) :
+    (exec (isoAdsPart i aa) ⟨db, mem, n, none⟩).1 = .error .integrity := by
+  unfold isoAdsPart
+  cases aa with
+  | false => exact isoTail_fails i db mem n (h db (Or.inr rfl) rfl rfl rfl)
+  | true =>
+    simp only [if_true, exec_bind, exec_readStmt_none]
+    split_ifs
+    · rcases hx : exec (adsToDb i.adsorbate i.adsProps true false) ⟨db, mem, n + 1, none⟩ with ⟨r, w1⟩
+      rw [exec_bind, hx]
+      rcases paRel_adsToDb (M := db.mats) (T := db.isoTypes) (I := db.isos) i.adsorbate i.adsProps true false
+          ⟨db, mem, n + 1, none⟩ rfl ⟨rfl, rfl, rfl⟩ with ⟨e, he, hr⟩ | ⟨a, hr, hf, h1, h2, h3⟩
+      · rw [hx] at hr; simp only at hr; subst hr; subst he; rfl
+      · rw [hx] at hr hf h1 h2 h3
+        simp only at hr hf h1 h2 h3
+        subst hr
+        obtain ⟨d1, m1, n1, f1⟩ := w1
+        simp only at hf h1 h2 h3
+        subst hf
+        exact isoTail_fails i d1 m1 n1 (h d1 (Or.inl rfl) h1 h2 h3)
+    · exact isoTail_fails i db mem (n + 1) (h db (Or.inl rfl) rfl rfl rfl)
+
+/-- the general refusal lemma for `isotherm_to_db`: if the `INSERT INTO isotherms` is rejected in every state the
+auto-insertion steps can lead to, the call ends in a `ParsingError` -/
+lemma isoToDb_fails (i : IsoIn) (am aa : Bool) (db : Db) (mem : Mem) (n : Nat)
+    (h : ∀ d, (am = true ∨ d.mats = db.mats) → (aa = true ∨ d.ads = db.ads) → d.isoTypes = db.isoTypes → d.isos = db.isos →
+      insIso i.id i.isoType i.material i.adsorbate i.temperature d = .error .integrity) :
+    (exec (isoToDb i am aa) ⟨db, mem, n, none⟩).1 = .error .integrity := by
+  rw [isoToDb_eq]
+  cases am with
+  | false =>
+    exact isoAdsPart_fails i aa db mem n fun d h1 h2 h3 h4 => h d (Or.inr h2) h1 h3 h4
+  | true =>
+    simp only [if_true, exec_bind, exec_readStmt_none]
+    split_ifs
+    · rcases hx : exec (matToDb i.material i.matProps true false) ⟨db, mem, n + 1, none⟩ with ⟨r, w1⟩
+      rw [exec_bind, hx]
+      rcases pmRel_matToDb (A := db.ads) (T := db.isoTypes) (I := db.isos) i.material i.matProps true false
+          ⟨db, mem, n + 1, none⟩ rfl ⟨rfl, rfl, rfl⟩ with ⟨e, he, hr⟩ | ⟨a, hr, hf, h1, h2, h3⟩
+      · rw [hx] at hr; simp only at hr; subst hr; subst he; rfl
+      · rw [hx] at hr hf h1 h2 h3
+        simp only at hr hf h1 h2 h3
+        subst hr
+        obtain ⟨d1, m1, n1, f1⟩ := w1
+        simp only at hf h1 h2 h3
+        subst hf
+        refine isoAdsPart_fails i aa d1 m1 n1 fun d g1 g2 g3 g4 => h d (Or.inl rfl) ?_ (g3.trans h2) (g4.trans h3)
+        rcases g1 with g1 | g1
+        · exact Or.inl g1
+        · exact Or.inr (g1.trans h1)
+    · exact isoAdsPart_fails i aa db mem (n + 1) fun d h1 h2 h3 h4 => h d (Or.inl rfl) h1 h3 h4
+
+
+/-! ### refusal rules (fault-free calls; each outcome is `ParsingError`, and by `refused_changes_nothing` nothing changes) -/
+
+/-- names of the rows of the property-type table addressed by `table` (`"adsorbate"`, `"material"`, anything else = isotherm types) -/
+def typeNames (db : Db) (table : String) : List String :=
+  match table with
+  | "adsorbate" => db.adsTypes.map (·.1)
+  | "material" => db.matTypes.map (·.1)
+  | _ => db.isoTypes.map (·.1)
+
+lemma any_fst_false {β : Type} (l : List (String × β)) (t : String) (h : t ∉ l.map (·.1)) :
+    (l.any (·.1 == t)) = false := by
+  rw [Bool.eq_false_iff, Ne, any_fst_eq]; exact h
+
+theorem duplicate_adsorbate_refused (db : Db) (mem : Mem) (nm : String) (props : List (String × List (Option String)))
+    (ai : Bool) (h : nm ∈ db.ads) :
+    (runOp db mem (.adsToDb (some nm) props ai false) none).out = .parsingError := by
+  rw [(runOp_none _ _ _).1]
+  simp [Op.body, adsToDb, exec_bind, exec_writeStmt_none, insAds, insName, h, outcomeOf]
+
+theorem duplicate_material_refused (db : Db) (mem : Mem) (nm : String) (props : List (String × List (Option String)))
+    (ai : Bool) (h : nm ∈ db.mats) :
+    (runOp db mem (.matToDb (some nm) props ai false) none).out = .parsingError := by
+  rw [(runOp_none _ _ _).1]
+  simp [Op.body, matToDb, exec_bind, exec_writeStmt_none, insMat, insName, h, outcomeOf]
+
+/-- an upload without a name (NOT NULL) is refused -/
+theorem null_name_refused (db : Db) (mem : Mem) (props : List (String × List (Option String))) (ai : Bool) :
+    (runOp db mem (.adsToDb none props ai false) none).out = .parsingError ∧
+    (runOp db mem (.matToDb none props ai false) none).out = .parsingError := by
+  constructor
+  · rw [(runOp_none _ _ _).1]
+    simp [Op.body, adsToDb, exec_bind, exec_writeStmt_none, insAds, insName, outcomeOf]
+  · rw [(runOp_none _ _ _).1]
+    simp [Op.body, matToDb, exec_bind, exec_writeStmt_none, insMat, insName, outcomeOf]
+
+/-- overwriting an adsorbate / material that is not in the file is refused -/
+theorem overwrite_absent_refused (db : Db) (mem : Mem) (name : Option String) (props : List (String × List (Option String)))
+    (ai : Bool) :
+    (name.getD "" ∉ db.ads → (runOp db mem (.adsToDb name props ai true) none).out = .parsingError) ∧
+    (name.getD "" ∉ db.mats → (runOp db mem (.matToDb name props ai true) none).out = .parsingError) := by
+  constructor
+  · intro h
+    rw [(runOp_none _ _ _).1]
+    simp [Op.body, adsToDb, exec_bind, h, outcomeOf]
+  · intro h
+    rw [(runOp_none _ _ _).1]
+    simp [Op.body, matToDb, exec_bind, h, outcomeOf]
+
+/-- deleting an absent adsorbate, material, isotherm or property type is refused -/
+theorem delete_absent_refused (db : Db) (mem : Mem) :
+    (∀ nm, nm ∉ db.ads → (runOp db mem (.adsDelete nm) none).out = .parsingError) ∧
+    (∀ nm, nm ∉ db.mats → (runOp db mem (.matDelete nm) none).out = .parsingError) ∧
+    (∀ id, id ∉ db.isos.map (·.1) → (runOp db mem (.isoDelete id) none).out = .parsingError) ∧
+    (∀ table t, t ∉ typeNames db table → (runOp db mem (.typeDelete table t) none).out = .parsingError) := by
+  refine ⟨?_, ?_, ?_, ?_⟩
+  · intro nm h
+    rw [(runOp_none _ _ _).1]
+    simp [Op.body, adsDelete, exec_bind, h, outcomeOf]
+  · intro nm h
+    rw [(runOp_none _ _ _).1]
+    simp [Op.body, matDelete, exec_bind, h, outcomeOf]
+  · intro id h
+    rw [(runOp_none _ _ _).1]
+    simp only [Op.body, exec_isoDelete_none, any_fst_false _ _ h]
+    simp [outcomeOf]
+  · intro table t h
+    rw [(runOp_none _ _ _).1]
+    unfold typeNames at h
+    simp only [Op.body, typeDelete, exec_bind, exec_readStmt_none]
+    split at h <;> simp [any_fst_false _ _ h, outcomeOf, exec_bind]
+
+
+
+/-- deleting an adsorbate or a material that an isotherm still references is refused -/
+theorem delete_referenced_refused (db : Db) (mem : Mem) (nm : String)
+    (r : String × String × String × String × String) (hr : r ∈ db.isos) :
+    (nm ∈ db.ads → r.2.2.2.1 = nm → (runOp db mem (.adsDelete nm) none).out = .parsingError) ∧
+    (nm ∈ db.mats → r.2.2.1 = nm → (runOp db mem (.matDelete nm) none).out = .parsingError) := by
+  constructor
+  · intro h hr2
+    rw [(runOp_none _ _ _).1]
+    have : (db.isos.any fun r => r.2.2.2.1 == nm) = true := by
+      rw [List.any_eq_true]; exact ⟨r, hr, by simp [hr2]⟩
+    simp [Op.body, adsDelete, exec_bind, h, outcomeOf, exec_writeStmt_none, delAds, this]
+  · intro h hr2
+    rw [(runOp_none _ _ _).1]
+    have : (db.isos.any fun r => r.2.2.1 == nm) = true := by
+      rw [List.any_eq_true]; exact ⟨r, hr, by simp [hr2]⟩
+    simp [Op.body, matDelete, exec_bind, h, outcomeOf, exec_writeStmt_none, delMat, this]
+
+/-- deleting a property type still used by a property row, or an isotherm type still used by an isotherm, is refused -/
+theorem type_delete_referenced_refused (db : Db) (mem : Mem) (t : String) :
+    (t ∈ db.adsProps.map (·.2.1) → (runOp db mem (.typeDelete "adsorbate" t) none).out = .parsingError) ∧
+    (t ∈ db.matProps.map (·.2.1) → (runOp db mem (.typeDelete "material" t) none).out = .parsingError) ∧
+    (∀ table, table ≠ "adsorbate" → table ≠ "material" → t ∈ db.isos.map (·.2.1) →
+      (runOp db mem (.typeDelete table t) none).out = .parsingError) := by
+  refine ⟨?_, ?_, ?_⟩
+  · intro h
+    have h' : (db.adsProps.any fun r => r.2.1 == t) = true := by
+      obtain ⟨r, hr, rfl⟩ := List.mem_map.1 h
+      rw [List.any_eq_true]; exact ⟨r, hr, by simp⟩
+    rw [(runOp_none _ _ _).1]
+    simp only [Op.body, typeDelete, exec_bind, exec_readStmt_none]
+    by_cases c : (db.adsTypes.any fun x => x.1 == t) = true <;>
+      simp [c, outcomeOf, exec_bind, exec_writeStmt_none, delAdsType, h']
+  · intro h
+    have h' : (db.matProps.any fun r => r.2.1 == t) = true := by
+      obtain ⟨r, hr, rfl⟩ := List.mem_map.1 h
+      rw [List.any_eq_true]; exact ⟨r, hr, by simp⟩
+    rw [(runOp_none _ _ _).1]
+    simp only [Op.body, typeDelete, exec_bind, exec_readStmt_none]
+    by_cases c : (db.matTypes.any fun x => x.1 == t) = true <;>
+      simp [c, outcomeOf, exec_bind, exec_writeStmt_none, delMatType, h']
+  · intro table h1 h2 h
+    have h' : (db.isos.any fun r => r.2.1 == t) = true := by
+      obtain ⟨r, hr, rfl⟩ := List.mem_map.1 h
+      rw [List.any_eq_true]; exact ⟨r, hr, by simp⟩
+    rw [(runOp_none _ _ _).1]
+    simp only [Op.body, typeDelete, exec_bind, exec_readStmt_none]
+    by_cases c : (db.isoTypes.any fun x => x.1 == t) = true <;>
+      simp [c, outcomeOf, exec_bind, exec_writeStmt_none, delIsoType, h', h1, h2]
+
+/-- an isotherm whose id is already stored is refused, whatever the auto-insertion flags -/
+theorem duplicate_isotherm_refused (db : Db) (mem : Mem) (i : IsoIn) (am aa : Bool) (h : i.id ∈ db.isos.map (·.1)) :
+    (runOp db mem (.isoToDb i am aa) none).out = .parsingError := by
+  rw [(runOp_none _ _ _).1]
+  simp only [Op.body]
+  rw [isoToDb_fails i am aa db mem 1]
+  · rfl
+  · intro d _ _ _ h4
+    unfold insIso
+    have : (d.isos.any fun x => x.1 == i.id) = true := by rw [h4, any_fst_eq]; exact h
+    cases i.material <;> cases i.adsorbate <;> cases i.temperature <;> simp [this]
+
+/-- an isotherm referencing an unknown material (without material auto-insertion), an unknown adsorbate (without adsorbate
+auto-insertion), or an unknown isotherm type is refused; so is one lacking material, adsorbate or temperature -/
+theorem unknown_reference_refused (db : Db) (mem : Mem) (i : IsoIn) :
+    (∀ aa, (∀ m, i.material = some m → m ∉ db.mats) → (runOp db mem (.isoToDb i false aa) none).out = .parsingError) ∧
+    (∀ am, (∀ a, i.adsorbate = some a → a ∉ db.ads) → (runOp db mem (.isoToDb i am false) none).out = .parsingError) ∧
+    (∀ am aa, i.isoType ∉ db.isoTypes.map (·.1) → (runOp db mem (.isoToDb i am aa) none).out = .parsingError) ∧
+    (∀ am aa, i.temperature = none → (runOp db mem (.isoToDb i am aa) none).out = .parsingError) := by
+  refine ⟨?_, ?_, ?_, ?_⟩
+  · intro aa h
+    rw [(runOp_none _ _ _).1]
+    simp only [Op.body]
+    rw [isoToDb_fails i false aa db mem 1]
+    · rfl
+    · intro d h1 _ _ _
+      have h1 : d.mats = db.mats := by simpa using h1
+      unfold insIso
+      rcases hm : i.material with _ | m <;> cases i.adsorbate <;> cases i.temperature <;> simp
+      have := h m hm
+      simp [h1, this]
+  · intro am h
+    rw [(runOp_none _ _ _).1]
+    simp only [Op.body]
+    rw [isoToDb_fails i am false db mem 1]
+    · rfl
+    · intro d _ h2 _ _
+      have h2 : d.ads = db.ads := by simpa using h2
+      unfold insIso
+      cases i.material <;> rcases ha : i.adsorbate with _ | a <;> cases i.temperature <;> simp
+      have := h a ha
+      simp [h2, this]
+  · intro am aa h
+    rw [(runOp_none _ _ _).1]
+    simp only [Op.body]
+    rw [isoToDb_fails i am aa db mem 1]
+    · rfl
+    · intro d _ _ h3 _
+      unfold insIso
+      have : (d.isoTypes.any fun x => x.1 == i.isoType) = false := by rw [h3]; exact any_fst_false _ _ h
+      cases i.material <;> cases i.adsorbate <;> cases i.temperature <;> simp [this]
+  · intro am aa h
+    rw [(runOp_none _ _ _).1]
+    simp only [Op.body]
+    rw [isoToDb_fails i am aa db mem 1]
+    · rfl
+    · intro d _ _ _ _
+      unfold insIso
+      rw [h]
+      cases i.material <;> cases i.adsorbate <;> simp
+
+
+/-! ### effect rules (fault-free calls; outcome `ok` and the exact new content) -/
+
+lemma any_fst_true {β : Type} (l : List (String × β)) (t : String) (h : t ∈ l.map (·.1)) :
+    (l.any (·.1 == t)) = true := (any_fst_eq l t).2 h
+
+lemma any_filter_ne_false {α : Type} (l : List α) (f : α → String) (t : String) :
+    ((l.filter fun r => f r != t).any fun r => f r == t) = false := by
+  rw [Bool.eq_false_iff, Ne, List.any_eq_true]
+  rintro ⟨r, hr, h⟩
+  have := (List.mem_filter.1 hr).2
+  simp_all
+
+/-- uploading a new property type / isotherm type appends exactly that row; with `overwrite` the row of that name is
+replaced in place (an `UPDATE`, which touches nothing else) -/
+theorem type_upload (db : Db) (mem : Mem) (t u d : String) :
+    (t ∉ db.adsTypes.map (·.1) →
+      (runOp db mem (.typeToDb "adsorbate" (some t) u d false) none).out = .ok ∧
+      (runOp db mem (.typeToDb "adsorbate" (some t) u d false) none).db = { db with adsTypes := db.adsTypes ++ [(t, u, d)] }) ∧
+    (t ∉ db.matTypes.map (·.1) →
+      (runOp db mem (.typeToDb "material" (some t) u d false) none).out = .ok ∧
+      (runOp db mem (.typeToDb "material" (some t) u d false) none).db = { db with matTypes := db.matTypes ++ [(t, u, d)] }) ∧
+    (∀ table, table ≠ "adsorbate" → table ≠ "material" → t ∉ db.isoTypes.map (·.1) →
+      (runOp db mem (.typeToDb table (some t) u d false) none).out = .ok ∧
+      (runOp db mem (.typeToDb table (some t) u d false) none).db = { db with isoTypes := db.isoTypes ++ [(t, d)] }) ∧
+    ((runOp db mem (.typeToDb "adsorbate" (some t) u d true) none).out = .ok ∧
+      (runOp db mem (.typeToDb "adsorbate" (some t) u d true) none).db =
+        { db with adsTypes := db.adsTypes.map fun r => if r.1 == t then (t, u, d) else r }) ∧
+    ((runOp db mem (.typeToDb "material" (some t) u d true) none).out = .ok ∧
+      (runOp db mem (.typeToDb "material" (some t) u d true) none).db =
+        { db with matTypes := db.matTypes.map fun r => if r.1 == t then (t, u, d) else r }) := by
+  refine ⟨?_, ?_, ?_, ?_, ?_⟩
+  · intro h
+    rw [(runOp_none _ _ _).1, (runOp_none _ _ _).2]
+    simp [Op.body, typeToDb, exec_writeStmt_none, insType3, any_fst_false _ _ h, outcomeOf]
+  · intro h
+    rw [(runOp_none _ _ _).1, (runOp_none _ _ _).2]
+    simp [Op.body, typeToDb, exec_writeStmt_none, insType3, any_fst_false _ _ h, outcomeOf]
+  · intro table h1 h2 h
+    rw [(runOp_none _ _ _).1, (runOp_none _ _ _).2]
+    simp [Op.body, typeToDb, exec_writeStmt_none, insIsoType, any_fst_false _ _ h, outcomeOf, h1, h2]
+  · rw [(runOp_none _ _ _).1, (runOp_none _ _ _).2]
+    simp [Op.body, typeToDb, exec_writeStmt_none, updType3, outcomeOf]
+  · rw [(runOp_none _ _ _).1, (runOp_none _ _ _).2]
+    simp [Op.body, typeToDb, exec_writeStmt_none, updType3, outcomeOf]
+
+/-- deleting a present, unused property type / isotherm type removes exactly that row -/
+theorem type_delete (db : Db) (mem : Mem) (t : String) :
+    (t ∈ db.adsTypes.map (·.1) → t ∉ db.adsProps.map (·.2.1) →
+      (runOp db mem (.typeDelete "adsorbate" t) none).out = .ok ∧
+      (runOp db mem (.typeDelete "adsorbate" t) none).db = { db with adsTypes := db.adsTypes.filter (·.1 != t) }) ∧
+    (t ∈ db.matTypes.map (·.1) → t ∉ db.matProps.map (·.2.1) →
+      (runOp db mem (.typeDelete "material" t) none).out = .ok ∧
+      (runOp db mem (.typeDelete "material" t) none).db = { db with matTypes := db.matTypes.filter (·.1 != t) }) ∧
+    (∀ table, table ≠ "adsorbate" → table ≠ "material" → t ∈ db.isoTypes.map (·.1) → t ∉ db.isos.map (·.2.1) →
+      (runOp db mem (.typeDelete table t) none).out = .ok ∧
+      (runOp db mem (.typeDelete table t) none).db = { db with isoTypes := db.isoTypes.filter (·.1 != t) }) := by
+  refine ⟨?_, ?_, ?_⟩
+  · intro h hn
+    have hn' : (db.adsProps.any fun r => r.2.1 == t) = false := by
+      rw [Bool.eq_false_iff, Ne, List.any_eq_true]
+      rintro ⟨r, hr, h⟩; exact hn (List.mem_map.2 ⟨r, hr, by simpa using h⟩)
+    rw [(runOp_none _ _ _).1, (runOp_none _ _ _).2]
+    simp [Op.body, typeDelete, exec_bind, exec_writeStmt_none, delAdsType, any_fst_true _ _ h, hn', outcomeOf]
+  · intro h hn
+    have hn' : (db.matProps.any fun r => r.2.1 == t) = false := by
+      rw [Bool.eq_false_iff, Ne, List.any_eq_true]
+      rintro ⟨r, hr, h⟩; exact hn (List.mem_map.2 ⟨r, hr, by simpa using h⟩)
+    rw [(runOp_none _ _ _).1, (runOp_none _ _ _).2]
+    simp [Op.body, typeDelete, exec_bind, exec_writeStmt_none, delMatType, any_fst_true _ _ h, hn', outcomeOf]
+  · intro table h1 h2 h hn
+    have hn' : (db.isos.any fun r => r.2.1 == t) = false := by
+      rw [Bool.eq_false_iff, Ne, List.any_eq_true]
+      rintro ⟨r, hr, h⟩; exact hn (List.mem_map.2 ⟨r, hr, by simpa using h⟩)
+    rw [(runOp_none _ _ _).1, (runOp_none _ _ _).2]
+    simp [Op.body, typeDelete, exec_bind, exec_writeStmt_none, delIsoType, any_fst_true _ _ h, hn', outcomeOf, h1, h2]
+
+/-- deleting a present adsorbate / material that no isotherm references removes exactly its row and its property rows;
+deleting a present isotherm removes exactly its row, its property rows and its data rows.  Every other row of every table
+is unchanged (the result is the old content with those filters applied). -/
+theorem delete_removes_exactly (db : Db) (mem : Mem) :
+    (∀ nm, nm ∈ db.ads → nm ∉ db.isos.map (·.2.2.2.1) →
+      (runOp db mem (.adsDelete nm) none).out = .ok ∧
+      (runOp db mem (.adsDelete nm) none).db =
+        { db with ads := db.ads.filter (· != nm), adsProps := db.adsProps.filter (·.1 != nm) }) ∧
+    (∀ nm, nm ∈ db.mats → nm ∉ db.isos.map (·.2.2.1) →
+      (runOp db mem (.matDelete nm) none).out = .ok ∧
+      (runOp db mem (.matDelete nm) none).db =
+        { db with mats := db.mats.filter (· != nm), matProps := db.matProps.filter (·.1 != nm) }) ∧
+    (∀ id, id ∈ db.isos.map (·.1) →
+      (runOp db mem (.isoDelete id) none).out = .ok ∧
+      (runOp db mem (.isoDelete id) none).db =
+        { db with isos := db.isos.filter (·.1 != id), isoProps := db.isoProps.filter (·.1 != id),
+                  isoData := db.isoData.filter (·.1 != id) }) := by
+  refine ⟨?_, ?_, ?_⟩
+  · intro nm h hn
+    have hn' : (db.isos.any fun r => r.2.2.2.1 == nm) = false := by
+      rw [Bool.eq_false_iff, Ne, List.any_eq_true]
+      rintro ⟨r, hr, h⟩; exact hn (List.mem_map.2 ⟨r, hr, by simpa using h⟩)
+    have hp := any_filter_ne_false db.adsProps (·.1) nm
+    rw [(runOp_none _ _ _).1, (runOp_none _ _ _).2]
+    simp [Op.body, adsDelete, exec_bind, exec_writeStmt_none, delAds, h, hn', hp, outcomeOf]
+  · intro nm h hn
+    have hn' : (db.isos.any fun r => r.2.2.1 == nm) = false := by
+      rw [Bool.eq_false_iff, Ne, List.any_eq_true]
+      rintro ⟨r, hr, h⟩; exact hn (List.mem_map.2 ⟨r, hr, by simpa using h⟩)
+    have hp := any_filter_ne_false db.matProps (·.1) nm
+    rw [(runOp_none _ _ _).1, (runOp_none _ _ _).2]
+    simp [Op.body, matDelete, exec_bind, exec_writeStmt_none, delMat, h, hn', hp, outcomeOf]
+  · intro id h
+    rw [(runOp_none _ _ _).1, (runOp_none _ _ _).2]
+    simp [Op.body, exec_isoDelete_none, any_fst_true _ _ h, outcomeOf]
+
+
+/-! ### the loops of `adsorbate_to_db`, named -/
+
+def adsTypeLoop (types : List String) (props : List (String × List (Option String))) : Sql PUnit :=
+  forIn props PUnit.unit fun x _ =>
+    match x with
+    | (t, _) =>
+      if !types.contains t then do
+        writeStmt (insType3 (·.adsTypes) (fun d l => { d with adsTypes := l }) (some t) "" "")
+        pure (ForInStep.yield PUnit.unit)
+      else pure (ForInStep.yield PUnit.unit)
+
+def adsValLoop (nm t : String) (vs : List (Option String)) : Sql PUnit :=
+  forIn vs PUnit.unit fun v _ => do
+    writeStmt (insAdsProp nm t v)
+    pure (ForInStep.yield PUnit.unit)
+
+def adsPropLoop (nm : String) (props : List (String × List (Option String))) : Sql PUnit :=
+  forIn props PUnit.unit fun x _ =>
+    match x with
+    | (t, vs) => do
+      adsValLoop nm t vs
+      pure (ForInStep.yield PUnit.unit)
+
+theorem adsToDb_eq (name : Option String) (props : List (String × List (Option String))) (autoinsert overwrite : Bool) :
+    adsToDb name props autoinsert overwrite = (do
+      let nm := name.getD ""
+      if overwrite then
+        let ex ← readStmt fun db => db.ads.contains nm
+        if !ex then raise .integrity
+        writeStmt fun db => .ok { db with adsProps := db.adsProps.filter (·.1 != nm) }
+      else
+        writeStmt (insAds name)
+      if autoinsert then
+        let types ← readStmt fun db => db.adsTypes.map (·.1)
+        adsTypeLoop types props
+      adsPropLoop nm props
+      if overwrite then
+        modifyMem fun m => { m with adsList := m.adsList.erase nm }
+      modifyMem fun m => { m with adsList := m.adsList ++ [nm] }) := by
+  rfl
+
+
+/-- the auto-insertion loop adds, in order, the property types that were not in the snapshot `types0` -/
+lemma exec_adsTypeLoop (types0 : List String) (props : List (String × List (Option String)))
+    (hnd : (props.map (·.1)).Nodup) (db : Db) (mem : Mem) (n : Nat)
+    (h : ∀ t ∈ props.map (·.1), t ∉ types0 → t ∉ db.adsTypes.map (·.1)) :
+    ∃ n', exec (adsTypeLoop types0 props) ⟨db, mem, n, none⟩ =
+      (.ok PUnit.unit, ⟨{ db with adsTypes := db.adsTypes ++
+          ((props.map (·.1)).filter fun t => !types0.contains t).map fun t => (t, "", "") }, mem, n', none⟩) := by
+  unfold adsTypeLoop
+  induction props generalizing db n with
+  | nil => exact ⟨n, by simp⟩
+  | cons p rest ih =>
+    obtain ⟨t, vs⟩ := p
+    rw [List.forIn_cons]
+    simp only [List.map_cons, List.nodup_cons] at hnd h
+    by_cases c : types0.contains t = true
+    · obtain ⟨n', hn'⟩ := ih hnd.2 db n (fun t' ht' => h t' (List.mem_cons_of_mem _ ht'))
+      refine ⟨n', ?_⟩
+      simp only [exec_bind, c, Bool.not_true, Bool.false_eq_true, if_false, exec_pure]
+      rw [hn']
+      have c' : t ∈ types0 := by simpa using c
+      simp [List.filter_cons, c']
+    · have ht : t ∉ db.adsTypes.map (·.1) := h t List.mem_cons_self (by simpa using c)
+      have hins : insType3 (·.adsTypes) (fun d l => { d with adsTypes := l }) (some t) "" "" db =
+          .ok { db with adsTypes := db.adsTypes ++ [(t, "", "")] } := by
+        simp [insType3, any_fst_false _ _ ht]
+      obtain ⟨n', hn'⟩ := ih hnd.2 { db with adsTypes := db.adsTypes ++ [(t, "", "")] } (n + 1) (by
+        intro t' ht' hnt'
+        simp only [List.map_append, List.map_cons, List.map_nil, List.mem_append, List.mem_singleton, not_or]
+        refine ⟨h t' (List.mem_cons_of_mem _ ht') hnt', ?_⟩
+        rintro rfl; exact hnd.1 ht')
+      refine ⟨n', ?_⟩
+      simp only [exec_bind, c, Bool.not_false, if_true, exec_writeStmt_ok hins, exec_pure]
+      rw [hn']
+      have c' : t ∉ types0 := by simpa using c
+      simp [List.filter_cons, c']
+
+
+lemma exec_adsValLoop (nm t : String) (vs : List String) (db : Db) (mem : Mem) (n : Nat)
+    (hnm : nm ∈ db.ads) (ht : t ∈ db.adsTypes.map (·.1)) :
+    ∃ n', exec (adsValLoop nm t (vs.map some)) ⟨db, mem, n, none⟩ =
+      (.ok PUnit.unit, ⟨{ db with adsProps := db.adsProps ++ vs.map fun v => (nm, t, v) }, mem, n', none⟩) := by
+  unfold adsValLoop
+  induction vs generalizing db n with
+  | nil => exact ⟨n, by simp⟩
+  | cons v rest ih =>
+    rw [List.map_cons, List.forIn_cons]
+    have hins : insAdsProp nm t (some v) db = .ok { db with adsProps := db.adsProps ++ [(nm, t, v)] } := by
+      simp [insAdsProp, hnm, any_fst_true _ _ ht]
+    obtain ⟨n', hn'⟩ := ih { db with adsProps := db.adsProps ++ [(nm, t, v)] } (n + 1) hnm ht
+    refine ⟨n', ?_⟩
+    simp only [exec_bind, exec_writeStmt_ok hins, exec_pure]
+    rw [hn']
+    simp
+
+lemma exec_adsPropLoop (nm : String) (props : List (String × List String)) (db : Db) (mem : Mem) (n : Nat)
+    (hnm : nm ∈ db.ads) (ht : ∀ t ∈ props.map (·.1), t ∈ db.adsTypes.map (·.1)) :
+    ∃ n', exec (adsPropLoop nm (props.map fun p => (p.1, p.2.map some))) ⟨db, mem, n, none⟩ =
+      (.ok PUnit.unit, ⟨{ db with adsProps := db.adsProps ++ props.flatMap fun p => p.2.map fun v => (nm, p.1, v) },
+        mem, n', none⟩) := by
+  unfold adsPropLoop
+  induction props generalizing db n with
+  | nil => exact ⟨n, by simp⟩
+  | cons p rest ih =>
+    obtain ⟨t, vs⟩ := p
+    rw [List.map_cons, List.forIn_cons]
+    simp only [List.map_cons, List.mem_cons, forall_eq_or_imp] at ht
+    obtain ⟨n1, h1⟩ := exec_adsValLoop nm t vs db mem n hnm ht.1
+    obtain ⟨n', hn'⟩ := ih { db with adsProps := db.adsProps ++ vs.map fun v => (nm, t, v) } n1 hnm ht.2
+    refine ⟨n', ?_⟩
+    simp only [exec_bind, h1, exec_pure]
+    rw [hn']
+    simp
+
+
+/-- **Upload of a new adsorbate** (not overwriting, name absent, all values non-null, distinct property keys as in a
+Python dict, property types auto-inserted): the call succeeds; the adsorbate is in the table; the property types not yet
+known are appended (empty unit and description), in order; the property rows are exactly the rows of `props` appended in
+order; every other row of every table is unchanged. -/
+theorem upload_adsorbate_then_present (db : Db) (mem : Mem) (nm : String) (props : List (String × List String))
+    (hn : nm ∉ db.ads) (hnd : (props.map (·.1)).Nodup) :
+    (runOp db mem (.adsToDb (some nm) (props.map fun p => (p.1, p.2.map some)) true false) none).out = .ok ∧
+    (runOp db mem (.adsToDb (some nm) (props.map fun p => (p.1, p.2.map some)) true false) none).db =
+      { db with
+        ads := db.ads ++ [nm]
+        adsTypes := db.adsTypes ++
+          ((props.map (·.1)).filter fun t => !(db.adsTypes.map (·.1)).contains t).map fun t => (t, "", "")
+        adsProps := db.adsProps ++ props.flatMap fun p => p.2.map fun v => (nm, p.1, v) } := by
+  have hkeys : (props.map fun p => (p.1, p.2.map some)).map (·.1) = props.map (·.1) := by
+    rw [List.map_map]; rfl
+  have hins : insAds (some nm) db = .ok { db with ads := db.ads ++ [nm] } := by
+    simp [insAds, insName, hn]
+  obtain ⟨n1, h1⟩ := exec_adsTypeLoop (db.adsTypes.map (·.1)) (props.map fun p => (p.1, p.2.map some))
+    (hkeys ▸ hnd) { db with ads := db.ads ++ [nm] } mem 3 (fun t _ h => h)
+  rw [hkeys] at h1
+  obtain ⟨n2, h2⟩ := exec_adsPropLoop nm props
+    { db with ads := db.ads ++ [nm], adsTypes := db.adsTypes ++
+      ((props.map (·.1)).filter fun t => !(db.adsTypes.map (·.1)).contains t).map fun t => (t, "", "") } mem n1
+    (by simp) (by
+      intro t ht
+      simp only [List.map_append, List.map_map, List.mem_append]
+      by_cases c : t ∈ db.adsTypes.map (·.1)
+      · exact Or.inl c
+      · right
+        exact List.mem_map.2 ⟨t, List.mem_filter.2 ⟨ht, by simpa using c⟩, rfl⟩)
+  have key : exec (adsToDb (some nm) (props.map fun p => (p.1, p.2.map some)) true false) ⟨db, mem, 1, none⟩ =
+      (.ok (), ⟨{ db with
+        ads := db.ads ++ [nm]
+        adsTypes := db.adsTypes ++
+          ((props.map (·.1)).filter fun t => !(db.adsTypes.map (·.1)).contains t).map fun t => (t, "", "")
+        adsProps := db.adsProps ++ props.flatMap fun p => p.2.map fun v => (nm, p.1, v) },
+        { mem with adsList := mem.adsList ++ [nm] }, n2, none⟩) := by
+    rw [adsToDb_eq]
+    simp only [Bool.false_eq_true, if_false, if_true, exec_bind, exec_writeStmt_ok hins, exec_readStmt_none, h1, h2,
+      Option.getD_some, exec_modifyMem, exec_pure]
+  rw [(runOp_none _ _ _).1, (runOp_none _ _ _).2]
+  simp only [Op.body, key]
+  exact ⟨rfl, trivial⟩
+
+/-! ### the loops of `material_to_db`, named -/
+
+def matTypeLoop (types : List String) (props : List (String × List (Option String))) : Sql PUnit :=
+  forIn props PUnit.unit fun x _ =>
+    match x with
+    | (t, _) =>
+      if !types.contains t then do
+        writeStmt (insType3 (·.matTypes) (fun d l => { d with matTypes := l }) (some t) "" "")
+        pure (ForInStep.yield PUnit.unit)
+      else pure (ForInStep.yield PUnit.unit)
+
+def matValLoop (nm t : String) (vs : List (Option String)) : Sql PUnit :=
+  forIn vs PUnit.unit fun v _ => do
+    writeStmt (insMatProp nm t v)
+    pure (ForInStep.yield PUnit.unit)
+
+def matPropLoop (nm : String) (props : List (String × List (Option String))) : Sql PUnit :=
+  forIn props PUnit.unit fun x _ =>
+    match x with
+    | (t, vs) => do
+      matValLoop nm t vs
+      pure (ForInStep.yield PUnit.unit)
+
+theorem matToDb_eq (name : Option String) (props : List (String × List (Option String))) (autoinsert overwrite : Bool) :
+    matToDb name props autoinsert overwrite = (do
+      let nm := name.getD ""
+      if overwrite then
+        let ex ← readStmt fun db => db.mats.contains nm
+        if !ex then raise .integrity
+        writeStmt fun db => .ok { db with matProps := db.matProps.filter (·.1 != nm) }
+      else
+        writeStmt (insMat name)
+      if autoinsert then
+        let types ← readStmt fun db => db.matTypes.map (·.1)
+        matTypeLoop types props
+      matPropLoop nm props
+      if overwrite then
+        modifyMem fun m => { m with matList := m.matList.erase nm }
+      modifyMem fun m => { m with matList := m.matList ++ [nm] }) := by
+  rfl
+
+
+/-- the auto-insertion loop adds, in order, the property types that were not in the snapshot `types0` -/
+lemma exec_matTypeLoop (types0 : List String) (props : List (String × List (Option String)))
+    (hnd : (props.map (·.1)).Nodup) (db : Db) (mem : Mem) (n : Nat)
+    (h : ∀ t ∈ props.map (·.1), t ∉ types0 → t ∉ db.matTypes.map (·.1)) :
+    ∃ n', exec (matTypeLoop types0 props) ⟨db, mem, n, none⟩ =
+      (.ok PUnit.unit, ⟨{ db with matTypes := db.matTypes ++
+          ((props.map (·.1)).filter fun t => !types0.contains t).map fun t => (t, "", "") }, mem, n', none⟩) := by
+  unfold matTypeLoop
+  induction props generalizing db n with
+  | nil => exact ⟨n, by simp⟩
+  | cons p rest ih =>
+    obtain ⟨t, vs⟩ := p
+    rw [List.forIn_cons]
+    simp only [List.map_cons, List.nodup_cons] at hnd h
+    by_cases c : types0.contains t = true
+    · obtain ⟨n', hn'⟩ := ih hnd.2 db n (fun t' ht' => h t' (List.mem_cons_of_mem _ ht'))
+      refine ⟨n', ?_⟩
+      simp only [exec_bind, c, Bool.not_true, Bool.false_eq_true, if_false, exec_pure]
+      rw [hn']
+      have c' : t ∈ types0 := by simpa using c
+      simp [List.filter_cons, c']
+    · have ht : t ∉ db.matTypes.map (·.1) := h t List.mem_cons_self (by simpa using c)
+      have hins : insType3 (·.matTypes) (fun d l => { d with matTypes := l }) (some t) "" "" db =
+          .ok { db with matTypes := db.matTypes ++ [(t, "", "")] } := by
+        simp [insType3, any_fst_false _ _ ht]
+      obtain ⟨n', hn'⟩ := ih hnd.2 { db with matTypes := db.matTypes ++ [(t, "", "")] } (n + 1) (by
+        intro t' ht' hnt'
+        simp only [List.map_append, List.map_cons, List.map_nil, List.mem_append, List.mem_singleton, not_or]
+        refine ⟨h t' (List.mem_cons_of_mem _ ht') hnt', ?_⟩
+        rintro rfl; exact hnd.1 ht')
+      refine ⟨n', ?_⟩
+      simp only [exec_bind, c, Bool.not_false, if_true, exec_writeStmt_ok hins, exec_pure]
+      rw [hn']
+      have c' : t ∉ types0 := by simpa using c
+      simp [List.filter_cons, c']
+
+
+lemma exec_matValLoop (nm t : String) (vs : List String) (db : Db) (mem : Mem) (n : Nat)
+    (hnm : nm ∈ db.mats) (ht : t ∈ db.matTypes.map (·.1)) :
+    ∃ n', exec (matValLoop nm t (vs.map some)) ⟨db, mem, n, none⟩ =
+      (.ok PUnit.unit, ⟨{ db with matProps := db.matProps ++ vs.map fun v => (nm, t, v) }, mem, n', none⟩) := by
+  unfold matValLoop
+  induction vs generalizing db n with
+  | nil => exact ⟨n, by simp⟩
+  | cons v rest ih =>
+    rw [List.map_cons, List.forIn_cons]
+    have hins : insMatProp nm t (some v) db = .ok { db with matProps := db.matProps ++ [(nm, t, v)] } := by
+      simp [insMatProp, hnm, any_fst_true _ _ ht]
+    obtain ⟨n', hn'⟩ := ih { db with matProps := db.matProps ++ [(nm, t, v)] } (n + 1) hnm ht
+    refine ⟨n', ?_⟩
+    simp only [exec_bind, exec_writeStmt_ok hins, exec_pure]
+    rw [hn']
+    simp
+
+lemma exec_matPropLoop (nm : String) (props : List (String × List String)) (db : Db) (mem : Mem) (n : Nat)
+    (hnm : nm ∈ db.mats) (ht : ∀ t ∈ props.map (·.1), t ∈ db.matTypes.map (·.1)) :
+    ∃ n', exec (matPropLoop nm (props.map fun p => (p.1, p.2.map some))) ⟨db, mem, n, none⟩ =
+      (.ok PUnit.unit, ⟨{ db with matProps := db.matProps ++ props.flatMap fun p => p.2.map fun v => (nm, p.1, v) },
+        mem, n', none⟩) := by
+  unfold matPropLoop
+  induction props generalizing db n with
+  | nil => exact ⟨n, by simp⟩
+  | cons p rest ih =>
+    obtain ⟨t, vs⟩ := p
+    rw [List.map_cons, List.forIn_cons]
+    simp only [List.map_cons, List.mem_cons, forall_eq_or_imp] at ht
+    obtain ⟨n1, h1⟩ := exec_matValLoop nm t vs db mem n hnm ht.1
+    obtain ⟨n', hn'⟩ := ih { db with matProps := db.matProps ++ vs.map fun v => (nm, t, v) } n1 hnm ht.2
+    refine ⟨n', ?_⟩
+    simp only [exec_bind, h1, exec_pure]
+    rw [hn']
+    simp
+
+
+/-- **Upload of a new material** (not overwriting, name absent, all values non-null, distinct property keys as in a
+Python dict, property types auto-inserted): the call succeeds; the material is in the table; the property types not yet
+known are appended (empty unit and description), in order; the property rows are exactly the rows of `props` appended in
+order; every other row of every table is unchanged. -/
+theorem upload_material_then_present (db : Db) (mem : Mem) (nm : String) (props : List (String × List String))
+    (hn : nm ∉ db.mats) (hnd : (props.map (·.1)).Nodup) :
+    (runOp db mem (.matToDb (some nm) (props.map fun p => (p.1, p.2.map some)) true false) none).out = .ok ∧
+    (runOp db mem (.matToDb (some nm) (props.map fun p => (p.1, p.2.map some)) true false) none).db =
+      { db with
+        mats := db.mats ++ [nm]
+        matTypes := db.matTypes ++
+          ((props.map (·.1)).filter fun t => !(db.matTypes.map (·.1)).contains t).map fun t => (t, "", "")
+        matProps := db.matProps ++ props.flatMap fun p => p.2.map fun v => (nm, p.1, v) } := by
+  have hkeys : (props.map fun p => (p.1, p.2.map some)).map (·.1) = props.map (·.1) := by
+    rw [List.map_map]; rfl
+  have hins : insMat (some nm) db = .ok { db with mats := db.mats ++ [nm] } := by
+    simp [insMat, insName, hn]
+  obtain ⟨n1, h1⟩ := exec_matTypeLoop (db.matTypes.map (·.1)) (props.map fun p => (p.1, p.2.map some))
+    (hkeys ▸ hnd) { db with mats := db.mats ++ [nm] } mem 3 (fun t _ h => h)
+  rw [hkeys] at h1
+  obtain ⟨n2, h2⟩ := exec_matPropLoop nm props
+    { db with mats := db.mats ++ [nm], matTypes := db.matTypes ++
+      ((props.map (·.1)).filter fun t => !(db.matTypes.map (·.1)).contains t).map fun t => (t, "", "") } mem n1
+    (by simp) (by
+      intro t ht
+      simp only [List.map_append, List.map_map, List.mem_append]
+      by_cases c : t ∈ db.matTypes.map (·.1)
+      · exact Or.inl c
+      · right
+        exact List.mem_map.2 ⟨t, List.mem_filter.2 ⟨ht, by simpa using c⟩, rfl⟩)
+  have key : exec (matToDb (some nm) (props.map fun p => (p.1, p.2.map some)) true false) ⟨db, mem, 1, none⟩ =
+      (.ok (), ⟨{ db with
+        mats := db.mats ++ [nm]
+        matTypes := db.matTypes ++
+          ((props.map (·.1)).filter fun t => !(db.matTypes.map (·.1)).contains t).map fun t => (t, "", "")
+        matProps := db.matProps ++ props.flatMap fun p => p.2.map fun v => (nm, p.1, v) },
+        { mem with matList := mem.matList ++ [nm] }, n2, none⟩) := by
+    rw [matToDb_eq]
+    simp only [Bool.false_eq_true, if_false, if_true, exec_bind, exec_writeStmt_ok hins, exec_readStmt_none, h1, h2,
+      Option.getD_some, exec_modifyMem, exec_pure]
+  rw [(runOp_none _ _ _).1, (runOp_none _ _ _).2]
+  simp only [Op.body, key]
+  exact ⟨rfl, trivial⟩
+
+
+
+/-- `upload_then_present` for both kinds of named item -/
+theorem upload_then_present (db : Db) (mem : Mem) (nm : String) (props : List (String × List String))
+    (hnd : (props.map (·.1)).Nodup) :
+    (nm ∉ db.ads →
+      (runOp db mem (.adsToDb (some nm) (props.map fun p => (p.1, p.2.map some)) true false) none).out = .ok ∧
+      (runOp db mem (.adsToDb (some nm) (props.map fun p => (p.1, p.2.map some)) true false) none).db =
+        { db with
+          ads := db.ads ++ [nm]
+          adsTypes := db.adsTypes ++
+            ((props.map (·.1)).filter fun t => !(db.adsTypes.map (·.1)).contains t).map fun t => (t, "", "")
+          adsProps := db.adsProps ++ props.flatMap fun p => p.2.map fun v => (nm, p.1, v) }) ∧
+    (nm ∉ db.mats →
+      (runOp db mem (.matToDb (some nm) (props.map fun p => (p.1, p.2.map some)) true false) none).out = .ok ∧
+      (runOp db mem (.matToDb (some nm) (props.map fun p => (p.1, p.2.map some)) true false) none).db =
+        { db with
+          mats := db.mats ++ [nm]
+          matTypes := db.matTypes ++
+            ((props.map (·.1)).filter fun t => !(db.matTypes.map (·.1)).contains t).map fun t => (t, "", "")
+          matProps := db.matProps ++ props.flatMap fun p => p.2.map fun v => (nm, p.1, v) }) :=
+  ⟨fun h => upload_adsorbate_then_present db mem nm props h hnd,
+   fun h => upload_material_then_present db mem nm props h hnd⟩
+
+
+/-! ### upload of an isotherm whose material and adsorbate are already stored -/
+
+lemma exec_isoPropLoop (id : String) (props : List (String × String)) (db : Db) (mem : Mem) (n : Nat)
+    (hid : id ∈ db.isos.map (·.1)) :
+    ∃ n', exec (isoPropLoop id (props.map fun p => (p.1, PVal.val p.2))) ⟨db, mem, n, none⟩ =
+      (.ok PUnit.unit, ⟨{ db with isoProps := db.isoProps ++ props.map fun p => (id, p.1, p.2) }, mem, n', none⟩) := by
+  unfold isoPropLoop
+  induction props generalizing db n with
+  | nil => exact ⟨n, by simp⟩
+  | cons p rest ih =>
+    obtain ⟨t, v⟩ := p
+    rw [List.map_cons, List.forIn_cons]
+    have hins : insIsoProp id t (.val v) db = .ok { db with isoProps := db.isoProps ++ [(id, t, v)] } := by
+      simp [insIsoProp, any_fst_true _ _ hid]
+    obtain ⟨n', hn'⟩ := ih { db with isoProps := db.isoProps ++ [(id, t, v)] } (n + 1) hid
+    refine ⟨n', ?_⟩
+    simp only [exec_bind, exec_writeStmt_ok hins, exec_pure]
+    rw [hn']
+    simp
+
+lemma exec_isoDataLoop (id : String) (data : List (String × String × String)) (db : Db) (mem : Mem) (n : Nat)
+    (hid : id ∈ db.isos.map (·.1)) :
+    ∃ n', exec (isoDataLoop id data) ⟨db, mem, n, none⟩ =
+      (.ok PUnit.unit, ⟨{ db with isoData := db.isoData ++ data.map fun r => (id, r.1, r.2.1, r.2.2) }, mem, n', none⟩) := by
+  unfold isoDataLoop
+  induction data generalizing db n with
+  | nil => exact ⟨n, by simp⟩
+  | cons p rest ih =>
+    obtain ⟨t, dt, d⟩ := p
+    rw [List.forIn_cons]
+    have hins : insIsoData id t dt d db = .ok { db with isoData := db.isoData ++ [(id, t, dt, d)] } := by
+      simp [insIsoData, any_fst_true _ _ hid]
+    obtain ⟨n', hn'⟩ := ih { db with isoData := db.isoData ++ [(id, t, dt, d)] } (n + 1) hid
+    refine ⟨n', ?_⟩
+    simp only [exec_bind, exec_writeStmt_ok hins, exec_pure]
+    rw [hn']
+    simp
+
+/-- the content after a successful isotherm upload -/
+def withIsotherm (db : Db) (i : IsoIn) (m a temp : String) (props : List (String × String)) : Db :=
+  { db with
+    isos := db.isos ++ [(i.id, i.isoType, m, a, temp)]
+    isoProps := db.isoProps ++ props.map fun p => (i.id, p.1, p.2)
+    isoData := db.isoData ++ i.data.map fun r => (i.id, r.1, r.2.1, r.2.2) }
+
+lemma exec_isoTail (i : IsoIn) (m a temp : String) (props : List (String × String)) (db : Db) (mem : Mem) (n : Nat)
+    (hm : i.material = some m) (ha : i.adsorbate = some a) (ht : i.temperature = some temp)
+    (hp : i.props = props.map fun p => (p.1, PVal.val p.2))
+    (hmk : m ∈ db.mats) (hak : a ∈ db.ads) (hty : i.isoType ∈ db.isoTypes.map (·.1)) (hid : i.id ∉ db.isos.map (·.1)) :
+    ∃ n', exec (isoTail i) ⟨db, mem, n, none⟩ = (.ok (), ⟨withIsotherm db i m a temp props, mem, n', none⟩) := by
+  have hins : insIso i.id i.isoType i.material i.adsorbate i.temperature db =
+      .ok { db with isos := db.isos ++ [(i.id, i.isoType, m, a, temp)] } := by
+    rw [hm, ha, ht]
+    simp [insIso, any_fst_false _ _ hid, any_fst_true _ _ hty, hmk, hak]
+  have hid' : i.id ∈ ({ db with isos := db.isos ++ [(i.id, i.isoType, m, a, temp)] } : Db).isos.map (·.1) := by simp
+  obtain ⟨n1, h1⟩ := exec_isoPropLoop i.id props _ mem (n + 1) hid'
+  obtain ⟨n2, h2⟩ := exec_isoDataLoop i.id i.data
+    { db with isos := db.isos ++ [(i.id, i.isoType, m, a, temp)],
+              isoProps := db.isoProps ++ props.map fun p => (i.id, p.1, p.2) } mem n1 hid'
+  refine ⟨n2, ?_⟩
+  unfold isoTail
+  rw [hp]
+  simp only [exec_bind, exec_writeStmt_ok hins, h1, h2, exec_pure]
+  rfl
+
+/-- **Upload of an isotherm** whose material and adsorbate are already stored, whose type is known, whose id is new and
+whose property values are all plain values: the call succeeds for every setting of the auto-insertion flags; the isotherm
+row, its property rows and its data rows are appended in order; nothing else changes. -/
+theorem upload_isotherm_then_present (db : Db) (mem : Mem) (i : IsoIn) (am aa : Bool) (m a temp : String)
+    (props : List (String × String))
+    (hm : i.material = some m) (ha : i.adsorbate = some a) (ht : i.temperature = some temp)
+    (hp : i.props = props.map fun p => (p.1, PVal.val p.2))
+    (hmk : m ∈ db.mats) (hak : a ∈ db.ads) (hty : i.isoType ∈ db.isoTypes.map (·.1)) (hid : i.id ∉ db.isos.map (·.1)) :
+    (runOp db mem (.isoToDb i am aa) none).out = .ok ∧
+    (runOp db mem (.isoToDb i am aa) none).db = withIsotherm db i m a temp props := by
+  have key : ∃ n', exec (isoToDb i am aa) ⟨db, mem, 1, none⟩ =
+      (.ok (), ⟨withIsotherm db i m a temp props, mem, n', none⟩) := by
+    rw [isoToDb_eq]
+    unfold isoAdsPart
+    cases am <;> cases aa <;>
+      simp only [Bool.false_eq_true, if_false, if_true, exec_bind, exec_readStmt_none, hm, ha, Option.getD_some,
+        List.contains_iff_mem.2 hmk, List.contains_iff_mem.2 hak, Bool.not_true] <;>
+      exact exec_isoTail i m a temp props db mem _ hm ha ht hp hmk hak hty hid
+  obtain ⟨n', hk⟩ := key
+  rw [(runOp_none _ _ _).1, (runOp_none _ _ _).2]
+  simp only [Op.body, hk]
+  exact ⟨rfl, trivial⟩
+
+
+/-- **Overwrite of a stored adsorbate** (name present, all values non-null, distinct keys, property types auto-inserted):
+the call succeeds; the old property rows of that adsorbate disappear, the new ones are appended in order; the adsorbate row
+itself and every other row are unchanged. -/
+theorem overwrite_adsorbate_then_present (db : Db) (mem : Mem) (nm : String) (props : List (String × List String))
+    (hn : nm ∈ db.ads) (hnd : (props.map (·.1)).Nodup) :
+    (runOp db mem (.adsToDb (some nm) (props.map fun p => (p.1, p.2.map some)) true true) none).out = .ok ∧
+    (runOp db mem (.adsToDb (some nm) (props.map fun p => (p.1, p.2.map some)) true true) none).db =
+      { db with
+        adsTypes := db.adsTypes ++
+          ((props.map (·.1)).filter fun t => !(db.adsTypes.map (·.1)).contains t).map fun t => (t, "", "")
+        adsProps := db.adsProps.filter (·.1 != nm) ++ props.flatMap fun p => p.2.map fun v => (nm, p.1, v) } := by
+  have hkeys : (props.map fun p => (p.1, p.2.map some)).map (·.1) = props.map (·.1) := by
+    rw [List.map_map]; rfl
+  obtain ⟨n1, h1⟩ := exec_adsTypeLoop (db.adsTypes.map (·.1)) (props.map fun p => (p.1, p.2.map some))
+    (hkeys ▸ hnd) { db with adsProps := db.adsProps.filter (·.1 != nm) } mem 4 (fun t _ h => h)
+  rw [hkeys] at h1
+  obtain ⟨n2, h2⟩ := exec_adsPropLoop nm props
+    { db with adsProps := db.adsProps.filter (·.1 != nm), adsTypes := db.adsTypes ++
+      ((props.map (·.1)).filter fun t => !(db.adsTypes.map (·.1)).contains t).map fun t => (t, "", "") } mem n1
+    hn (by
+      intro t ht
+      simp only [List.map_append, List.map_map, List.mem_append]
+      by_cases c : t ∈ db.adsTypes.map (·.1)
+      · exact Or.inl c
+      · right
+        exact List.mem_map.2 ⟨t, List.mem_filter.2 ⟨ht, by simpa using c⟩, rfl⟩)
+  have key : exec (adsToDb (some nm) (props.map fun p => (p.1, p.2.map some)) true true) ⟨db, mem, 1, none⟩ =
+      (.ok (), ⟨{ db with
+        adsTypes := db.adsTypes ++
+          ((props.map (·.1)).filter fun t => !(db.adsTypes.map (·.1)).contains t).map fun t => (t, "", "")
+        adsProps := db.adsProps.filter (·.1 != nm) ++ props.flatMap fun p => p.2.map fun v => (nm, p.1, v) },
+        { mem with adsList := mem.adsList.erase nm ++ [nm] }, n2, none⟩) := by
+    rw [adsToDb_eq]
+    simp only [if_true, exec_bind, exec_writeStmt_none, exec_readStmt_none, h1, h2,
+      Option.getD_some, exec_modifyMem, exec_pure, List.contains_iff_mem.2 hn, Bool.not_true, Bool.false_eq_true, if_false]
+  rw [(runOp_none _ _ _).1, (runOp_none _ _ _).2]
+  simp only [Op.body, key]
+  exact ⟨rfl, trivial⟩
+
+/-- **Overwrite of a stored material** (name present, all values non-null, distinct keys, property types auto-inserted):
+the call succeeds; the old property rows of that material disappear, the new ones are appended in order; the material row
+itself and every other row are unchanged. -/
+theorem overwrite_material_then_present (db : Db) (mem : Mem) (nm : String) (props : List (String × List String))
+    (hn : nm ∈ db.mats) (hnd : (props.map (·.1)).Nodup) :
+    (runOp db mem (.matToDb (some nm) (props.map fun p => (p.1, p.2.map some)) true true) none).out = .ok ∧
+    (runOp db mem (.matToDb (some nm) (props.map fun p => (p.1, p.2.map some)) true true) none).db =
+      { db with
+        matTypes := db.matTypes ++
+          ((props.map (·.1)).filter fun t => !(db.matTypes.map (·.1)).contains t).map fun t => (t, "", "")
+        matProps := db.matProps.filter (·.1 != nm) ++ props.flatMap fun p => p.2.map fun v => (nm, p.1, v) } := by
+  have hkeys : (props.map fun p => (p.1, p.2.map some)).map (·.1) = props.map (·.1) := by
+    rw [List.map_map]; rfl
+  obtain ⟨n1, h1⟩ := exec_matTypeLoop (db.matTypes.map (·.1)) (props.map fun p => (p.1, p.2.map some))
+    (hkeys ▸ hnd) { db with matProps := db.matProps.filter (·.1 != nm) } mem 4 (fun t _ h => h)
+  rw [hkeys] at h1
+  obtain ⟨n2, h2⟩ := exec_matPropLoop nm props
+    { db with matProps := db.matProps.filter (·.1 != nm), matTypes := db.matTypes ++
+      ((props.map (·.1)).filter fun t => !(db.matTypes.map (·.1)).contains t).map fun t => (t, "", "") } mem n1
+    hn (by
+      intro t ht
+      simp only [List.map_append, List.map_map, List.mem_append]
+      by_cases c : t ∈ db.matTypes.map (·.1)
+      · exact Or.inl c
+      · right
+        exact List.mem_map.2 ⟨t, List.mem_filter.2 ⟨ht, by simpa using c⟩, rfl⟩)
+  have key : exec (matToDb (some nm) (props.map fun p => (p.1, p.2.map some)) true true) ⟨db, mem, 1, none⟩ =
+      (.ok (), ⟨{ db with
+        matTypes := db.matTypes ++
+          ((props.map (·.1)).filter fun t => !(db.matTypes.map (·.1)).contains t).map fun t => (t, "", "")
+        matProps := db.matProps.filter (·.1 != nm) ++ props.flatMap fun p => p.2.map fun v => (nm, p.1, v) },
+        { mem with matList := mem.matList.erase nm ++ [nm] }, n2, none⟩) := by
+    rw [matToDb_eq]
+    simp only [if_true, exec_bind, exec_writeStmt_none, exec_readStmt_none, h1, h2,
+      Option.getD_some, exec_modifyMem, exec_pure, List.contains_iff_mem.2 hn, Bool.not_true, Bool.false_eq_true, if_false]
+  rw [(runOp_none _ _ _).1, (runOp_none _ _ _).2]
+  simp only [Op.body, key]
+  exact ⟨rfl, trivial⟩
+
+
+/-! ### every fault-free refusal is a `ParsingError` -/
+
+/-- the trivial invariant -/
+abbrev noCond : Db → Prop := fun _ => True
+
+macro "int_disch" : tactic => `(tactic|
+  (intro d _
+   try simp only [insAds, insMat, insName, insAdsProp, insMatProp, insType3, updType3, insIsoType, updIsoType, delAds, delMat,
+     delAdsType, delMatType, delIsoType, insIso, insIsoData, Bool.false_eq_true, if_true, if_false]
+   repeat' split
+   all_goals with_unfolding_all (first | exact trivial | exact rfl)))
+
+lemma intRel_adsToDb (name props ai ow) : Inv isInt noCond (adsToDb name props ai ow) := by
+  unfold adsToDb
+  sql_inv [int_disch] [rfl]
+
+lemma intRel_matToDb (name props ai ow) : Inv isInt noCond (matToDb name props ai ow) := by
+  unfold matToDb
+  sql_inv [int_disch] [rfl]
+
+lemma intRel_adsDelete (name) : Inv isInt noCond (adsDelete name) := by
+  unfold adsDelete
+  sql_inv [int_disch] [rfl]
+
+lemma intRel_matDelete (name) : Inv isInt noCond (matDelete name) := by
+  unfold matDelete
+  sql_inv [int_disch] [rfl]
+
+lemma intRel_typeToDb (tb t u d o) : Inv isInt noCond (typeToDb tb t u d o) := by
+  unfold typeToDb
+  cases o <;> sql_inv [int_disch] [rfl]
+
+lemma intRel_typeDelete (tb t) : Inv isInt noCond (typeDelete tb t) := by
+  unfold typeDelete
+  sql_inv [int_disch] [rfl]
+
+lemma intRel_isoDelete (id) : Inv isInt noCond (isoDelete id) := by
+  unfold isoDelete
+  sql_inv [int_disch] [rfl]
+
+
+lemma intRel_isoPropLoop (id : String) (props : List (String × PVal)) (h : ∀ p ∈ props, p.2 ≠ .unsupported) :
+    Inv isInt noCond (isoPropLoop id props) := by
+  unfold isoPropLoop
+  refine Inv.forIn_mem _ _ (fun p hp _ => ?_) _
+  obtain ⟨t, v⟩ := p
+  refine Inv.bind (Inv.writeStmt _ ?_) fun _ => Inv.pure _
+  intro d _
+  have hv : v ≠ .unsupported := h (t, v) hp
+  unfold insIsoProp
+  cases v with
+  | unsupported => exact absurd rfl hv
+  | null => rfl
+  | val s => simp only; split <;> first | trivial | rfl
+
+lemma intRel_isoToDb (i : IsoIn) (am aa : Bool) (h : ∀ p ∈ i.props, p.2 ≠ .unsupported) :
+    Inv isInt noCond (isoToDb i am aa) := by
+  rw [isoToDb_eq]
+  unfold isoAdsPart isoTail isoDataLoop
+  repeat (first
+    | with_reducible exact Inv.pure _
+    | with_reducible exact Inv.readStmt _ | with_reducible exact Inv.modifyMem _
+    | with_reducible exact intRel_adsToDb _ _ _ _ | with_reducible exact intRel_matToDb _ _ _ _
+    | with_reducible exact intRel_isoPropLoop _ _ h
+    | with_reducible refine Inv.writeStmt _ (by int_disch)
+    | with_reducible apply Inv.bind | with_reducible apply Inv.ite | with_reducible apply Inv.forIn
+    | with_reducible intro _
+    | (split)
+    | dsimp only)
+
+/-- the operation hands no unbindable value (dict / list) to sqlite -/
+def bindable : Op → Prop
+  | .isoToDb i _ _ => ∀ p ∈ i.props, p.2 ≠ .unsupported
+  | _ => True
+
+/-- **A fault-free call either succeeds or is refused with a `ParsingError`** — never any other exception — as long as every
+isotherm property value can be bound (finding: an unbindable value raises `ProgrammingError`, which `with_connection` does
+not translate; see `unbindable_value_other_error`). -/
+theorem refusal_is_parsingError (db : Db) (mem : Mem) (op : Op) (hb : bindable op) :
+    (runOp db mem op none).out = .ok ∨ (runOp db mem op none).out = .parsingError := by
+  have key : ∀ {p : Sql Unit}, Inv isInt noCond p →
+      outcomeOf (exec p ⟨db, mem, 1, none⟩).1 = .ok ∨ outcomeOf (exec p ⟨db, mem, 1, none⟩).1 = .parsingError := by
+    intro p hp
+    rcases hp ⟨db, mem, 1, none⟩ rfl trivial with ⟨e, he, hr⟩ | ⟨a, hr, _⟩
+    · rw [hr, he]; exact Or.inr rfl
+    · rw [hr]; exact Or.inl rfl
+  rw [(runOp_none _ _ _).1]
+  cases op with
+  | adsToDb n p a o => exact key (intRel_adsToDb n p a o)
+  | matToDb n p a o => exact key (intRel_matToDb n p a o)
+  | adsDelete n => exact key (intRel_adsDelete n)
+  | matDelete n => exact key (intRel_matDelete n)
+  | typeToDb tb t u d o => exact key (intRel_typeToDb tb t u d o)
+  | typeDelete tb t => exact key (intRel_typeDelete tb t)
+  | isoToDb i am aa => exact key (intRel_isoToDb i am aa hb)
+  | isoDelete id => exact key (intRel_isoDelete id)
+
 end PgVerif.C08
